@@ -399,6 +399,58 @@ func runC15(p *core.Prog, r *core.Report) {
 		})
 		r.Check(ok, "C15.R6", "EndOfStream/index", "for each item of the index module's output, every key decoded from that item's payload gets that item's block number added to its bitmap", "Add(item.BlockNum) on indexes[key] with keys of the same item not found", p.Pos(fn.Pos()))
 	})
+	r.Guard("C15.R6", "index-per-module", "one index per index module", func() {
+		fn := p.Func(pkgCache, "Engine.EndOfStream")
+		var writes []*ssa.Call
+		core.Instrs(fn, func(in ssa.Instruction) {
+			if c, ok := in.(*ssa.Call); ok {
+				if cl := core.CommonCallee(c.Common()); cl != nil && cl.Name() == "Write" && cl.Pkg() != nil && strings.HasSuffix(cl.Pkg().Path(), pkgIndex) {
+					writes = append(writes, c)
+				}
+			}
+		})
+		if len(writes) == 0 {
+			core.Undecide("EndOfStream: no index writer Write call")
+		}
+		for _, w := range writes {
+			// outermost loop containing the write: the loop over the modules' output writers
+			var outer *core.Loop
+			for _, l := range core.Loops(fn) {
+				if l.Body[w.Block()] && (outer == nil || len(l.Body) > len(outer.Body)) {
+					outer = l
+				}
+			}
+			ok := outer != nil
+			seen := map[ssa.Value]bool{}
+			var walk func(v ssa.Value)
+			walk = func(v ssa.Value) {
+				if seen[v] || !ok {
+					return
+				}
+				seen[v] = true
+				switch x := v.(type) {
+				case *ssa.MakeMap:
+					if !outer.Body[x.Block()] {
+						ok = false
+					}
+				case *ssa.Phi:
+					if x.Block() == outer.Header {
+						ok = false
+						return
+					}
+					for _, e := range x.Edges {
+						walk(e)
+					}
+				default:
+					ok = false
+				}
+			}
+			if ok {
+				walk(w.Call.Args[len(w.Call.Args)-1])
+			}
+			r.Check(ok, "C15.R6", "EndOfStream/index-per-module", "the key→bitmap map written as a module's index file is created for that module alone (inside the iteration over the output writers), never accumulated across index modules", "the map handed to the index writer outlives one module's iteration", p.Pos(w.Pos()))
+		}
+	})
 	r.MinInstances("C15.R1", 8)
 	r.MinInstances("C15.R4", 5)
 }
